@@ -41,7 +41,7 @@ def verify():
             d, r, _ = prog.callee_of(t)
             if is_raw_fs_call(r or d or "", d or ""):
                 raw.append(fn.name)
-    if sorted(raw) != ["raw_fs", "split_helper"]:
+    if sorted(raw) != ["make_all", "raw_fs", "split_helper"]:
         raise ControlFailure("raw filesystem call predicate matched %s" % raw)
     res["raw_fs"] = raw
     sites = audit(None, prog, list(prog.by_norm.values()), ())
@@ -86,6 +86,13 @@ def verify():
     if not sized or sized[1] <= 65537:
         raise ControlFailure("allocation range control: %s" % (sized,))
     res["alloc_range"] = sized
+    # ancestor-creating filesystem call (C13-Q5)
+    from rules_misc import is_ancestor_creating_call
+
+    anc = [fn.name for fn in prog.by_norm.values() for b, t in fn.all_calls() if is_ancestor_creating_call(prog.callee_of(t)[1] or prog.callee_of(t)[0] or "")]
+    if anc != ["make_all"]:
+        raise ControlFailure("ancestor-creating call matcher matched %s" % anc)
+    res["ancestor_creating"] = anc
     # narrowing-cast matcher (C07-S8)
     from rules_pdu import narrowing_casts
 
